@@ -904,3 +904,58 @@ def rule_first_match(prog, rep, tier, anchor="parse._merge_inner_function", owne
                 rep.ob("FIRST-MATCH", inst, "unresolved", loc(prog, w), "selection shape not recognised")
     if n == 0:
         raise AnalysisError("FIRST-MATCH: no lookup by name over ast.walk(...) found in %s" % anchor)
+
+
+# ---------------------------------------------------------------------------- RET-TOP
+def rule_ret_top(prog, rep, tier, anchor="parser_utils._interpolate_return", emitter="emit.function"):
+    """RET-TOP (C16): the `return` whose value becomes the return entry's default is looked for among the *top-level*
+    statements of the function body only.  The function emitter appends `return <default>` after the carried body and
+    drops the body's last statement only when that statement itself is a `return`: a default taken from a nested block
+    (an early return in a loop, the return of a trailing if/with/try, a nested function's return) makes the re-emitted body
+    one statement longer than the original."""
+    fi = prog.fn(anchor)
+    ef = prog.fn(emitter)
+    # the emit side really has that shape (otherwise the agreement is a different one and this rule does not apply)
+    drops_last_return = any(isinstance(c, ast.Call) and isinstance(c.func, ast.Name) and c.func.id == "isinstance" and len(c.args) == 2
+                            and isinstance(c.args[0], ast.Subscript) and isinstance(c.args[0].slice, ast.UnaryOp)
+                            and any(isinstance(x, ast.Name) and x.id == "Return" for x in ast.walk(c.args[1])) for f_ in prog.region(ef) for c in ast.walk(f_.node))
+    if not drops_last_return:
+        raise AnalysisError("RET-TOP: %s no longer tests `isinstance(<body>[-1], Return)`" % emitter)
+    n = 0
+    for f_ in prog.region(fi):
+        recursive = any(isinstance(c, ast.Call) and isinstance(c.func, (ast.Name, ast.Attribute)) and any(t is f_ for t in prog.resolve_expr_fn(c.func, c)) for c in ast.walk(f_.node))
+        for c in ast.walk(f_.node):
+            is_test = isinstance(c, ast.Call) and isinstance(c.func, ast.Name) and c.func.id in ("isinstance", "rpartial", "partial") \
+                and any(isinstance(x, ast.Name) and x.id == "Return" for a_ in c.args for x in ast.walk(a_))
+            if not is_test:
+                continue
+            # the iterable the tested node comes from
+            it = None
+            p = c._parent
+            child = c
+            while p is not None and it is None:
+                if isinstance(p, ast.Call) and isinstance(p.func, ast.Name) and p.func.id == "filter" and len(p.args) == 2 and p.args[0] is child:
+                    it = p.args[1]
+                elif isinstance(p, ast.comprehension) and child in p.ifs:
+                    it = p.iter
+                elif isinstance(p, (ast.For,)) and any(child is x or any(child is y for y in ast.walk(x)) for x in p.body):
+                    it = p.iter
+                child, p = p, getattr(p, "_parent", None)
+            if it is None:
+                continue
+            n += 1
+            deep = None
+            if any(isinstance(x, ast.Call) and isinstance(x.func, (ast.Name, ast.Attribute)) and prog.ext_name(x.func, x) == "ast.walk" for x in ast.walk(it)):
+                deep = "it searches ast.walk(...) (every nested statement and nested function)"
+            elif recursive and any(isinstance(x, ast.Attribute) and x.attr in ("orelse", "handlers", "finalbody") or
+                                   (isinstance(x, ast.Constant) and x.value in ("orelse", "handlers", "finalbody")) for x in ast.walk(f_.node)):
+                deep = "%s descends into nested blocks (orelse / handlers / finalbody) recursively" % f_.qualname
+            inst = "%s: Return looked for in %s" % (f_.qualname, src(it, 50))
+            if deep:
+                rep.violation(Finding("RET-TOP", prog.owner_name(f_), "nested-return-as-default",
+                                      "the return default is taken from a `return` that need not be a top-level statement of the body (%s), while %s only replaces a "
+                                      "trailing top-level `return`: the re-emitted body gains an extra `return`" % (deep, emitter), loc(prog, c)))
+            else:
+                rep.holds("RET-TOP", inst, loc(prog, c), "top-level statements only")
+    if n == 0:
+        raise AnalysisError("RET-TOP: no search for a Return node found in %s" % anchor)
